@@ -157,7 +157,7 @@ def run_case(case, rec=None):
                     rec.extra["undocumented_exceptions_seen"].append(c)
 
 
-WEIGHTS = {"fmt": 10, "chart_fmt": 8, "table_op": 6, "set_text": 5, "para_op": 5, "core_prop": 0, "read": 1, "save": 1,
+WEIGHTS = {"fmt": 10, "seq": 10, "chart_fmt": 8, "table_op": 6, "set_text": 5, "para_op": 5, "core_prop": 0, "read": 1, "save": 1,
            "save_reopen": 1, "turbo": 0}
 
 
